@@ -19,6 +19,12 @@ QUICK_N, THOROUGH_N = 400, 2500
 
 def _with_scenario(pair):
     case, pick = pair
+    if case.get('attach_later') and isinstance(case['maxsize'], int) and case['maxsize'] >= 1:
+        # the archive arrives through f.archive(obj) after decoration (at once, or after a few calls) and the cache then overflows:
+        # with purge enabled the overflow must empty the in-memory cache exactly as if the archive had been there from the start
+        n = len(case['pool'])
+        pre = ([['call', 0, 0, 0]] if pick else []) + [['attach'], ['sweep', 0, n], ['sweep', 1, n]]
+        return dict(case, ops=pre + [op for op in case['ops'] if op[0] != 'attach'])
     if pick == 1 and isinstance(case['maxsize'], int) and case['maxsize'] >= 2:
         # fill past the bound, reset with clear(keepstats=True) (or clear()), fill again with every pool entry: bookkeeping that survives a
         # reset must not let the cache grow past its bound afterwards
@@ -102,7 +108,7 @@ def _strata(tier):
     return G.strata_grid(
         maxsizes=(2, 1, 3, 5, 6, 0, None), ms_pos=(False, True), max_ops=35 if tier == 'quick' else 60,
         weights={'call': 14, 'load': 3, 'dump': 2, 'loadk': 1, 'dumpk': 1, 'clear': 1, 'clearkeep': 2, 'awrite': 2, 'burst': 2, 'sweep': 3, 'arch_off': 1, 'arch_on': 1},
-        pool=(3, 11), prefill_pct=30, raising_pct=20, attach_later_pct=15)
+        pool=(3, 11), prefill_pct=30, raising_pct=20, attach_later_pct=20)
 
 
 def execute(case):
